@@ -41,6 +41,7 @@ def main():
     first.update({r["name"]: r for r in table(f"{V}/seeded/RESULTS-round6-before-strengthening.tsv")})
     first.update({r["name"]: r for r in table(f"{V}/seeded/RESULTS-round7-before-strengthening.tsv")})
     first.update({r["name"]: r for r in table(f"{V}/seeded/RESULTS-round8-before-strengthening.tsv")})
+    first.update({r["name"]: r for r in table(f"{V}/seeded/RESULTS-round9-before-strengthening.tsv")})
     out.append("### B.1 Seeded changes written by independent sub-agents (`seeded/<id>/`)")
     out.append("")
     out.append("Each sub-agent got only the text of one property and its own scratch worktree of `/repo` (nothing from")
@@ -52,7 +53,8 @@ def main():
     out.append("the version after round 1; round 3, ids `r3...`: the version when round 3 was commissioned, `294ea8e`;")
     out.append("round 4, ids `r4...`: the version that met it, nothing missed; round 5, ids `r5...`: likewise the version that met")
     out.append("it - r5c12-1 did not even build under the hook wrapper of that time, which is why the wrapper now offers")
-    out.append("std's inherent methods, hook commit `15f5dd0`; rounds 6 to 8, ids `r6...`, `r7...`, `r8...`: the version that met them);")
+    out.append("std's inherent methods, hook commit `15f5dd0`; rounds 6 to 9, ids `r6...` to `r9...`: the version that met them; the rows of rounds 1 to 8 under *now* were")
+    out.append("all measured once more in one go at commit `0341af4`, round 9 one commit later);")
     out.append("*now* = the checks as they stand. Round 2 and 3 sub-agents were also told which ideas the earlier rounds")
     rows = table(f"{V}/seeded/RESULTS.tsv")
     n_missed = sum(1 for r in rows if r["name"] in first and "caught" not in first[r["name"]]["verdict"])
